@@ -29,7 +29,7 @@ theorem newDT_PX_all :
     rename_i h
     simp only [newDT, bind, Except.bind, pure, Except.pure, ctx, fail, *, if_true, if_false] at h
     try (cases h)
-    simp [PX, BytesPX_fresh]
+    simp [PX, BytesPX_fresh, ViewPX_fresh]
     done)
   all_goals try (
     intros
